@@ -13,6 +13,7 @@ import (
 	"fmt"
 	"os"
 	"reflect"
+	"strings"
 	"time"
 
 	"k8s.io/apimachinery/pkg/api/resource"
@@ -31,9 +32,13 @@ func runWorld(c *kit.Ctx, r *kit.Rand, idx int) {
 	// every third world carries no pod (anti-)affinity / topology spread: Solve is then deterministic up to map order
 	// and is used for the comparison across degrees of parallelism
 	noTopo := idx%3 == 0
-	w := sk.Gen(r, sk.GenOpts{Thorough: c.Thorough(), NoTopology: noTopo, Volumes: idx%2 == 0, Normalised: idx%3 == 1, Reserved: idx%5 == 0})
+	w := sk.Gen(r, sk.GenOpts{Thorough: c.Thorough(), NoTopology: noTopo, Volumes: idx%2 == 0, Normalised: idx%3 == 1, Reserved: idx%5 == 0, Extra: true})
 	sk.BindDaemonPods(r, w)
-	cfg := sk.RunCfg{Workers: 1, IgnorePreferences: idx%2 == 1, BestEffortMinValues: (idx/2)%2 == 1}
+	cfg := sk.RunCfg{Workers: 1, IgnorePreferences: idx%2 == 1, BestEffortMinValues: (idx/2)%2 == 1, NoReservedCapacity: idx%10 == 0}
+	if idx%6 == 2 {
+		cfg.MaxInstanceTypes = r.Range(1, 3) // the launch-request truncation (600 in production) on a small scale
+	}
+	countWorld(c, w, cfg)
 	judgeWorld(c, w, cfg, idx, noTopo)
 }
 
@@ -48,6 +53,25 @@ func judgeWorld(c *kit.Ctx, w *sk.World, cfg sk.RunCfg, idx int, noTopo bool) {
 	c.Count(fmt.Sprintf("B.cfg.ignorePrefs=%v.bestEffort=%v", cfg.IgnorePreferences, cfg.BestEffortMinValues))
 	c.Count(fmt.Sprintf("B.newclaims=%d", min(len(d.Claims), 4)))
 	c.Count(fmt.Sprintf("B.poderrors=%d", min(len(d.Errors), 3)))
+	for _, e := range d.Errors {
+		switch {
+		case strings.Contains(e, "reserved"):
+			c.Count("B.poderror.reserved-offering")
+		case strings.Contains(e, "limits"):
+			c.Count("B.poderror.nodepool-limits")
+		case strings.Contains(e, "minValues"):
+			c.Count("B.poderror.minValues")
+		case strings.Contains(e, "topology") || strings.Contains(e, "anti-affinity") || strings.Contains(e, "unsatisfiable"):
+			c.Count("B.poderror.topology")
+		}
+	}
+	if cfg.MaxInstanceTypes > 0 {
+		for _, cd := range d.Claims {
+			if len(cd.Options) == cfg.MaxInstanceTypes {
+				c.Count("B.extra.claim-truncated-to-MaxInstanceTypes")
+			}
+		}
+	}
 	for _, cd := range d.Claims {
 		c.Count(fmt.Sprintf("B.claim.pods=%d", min(len(cd.Pods), 4)))
 		c.Count(fmt.Sprintf("B.claim.options=%d", min(len(cd.Options), 6)))
@@ -195,5 +219,70 @@ func checkNormTable(c *kit.Ctx) {
 	}
 	if !reflect.DeepEqual(model, v1.NormalizedLabels) || len(v1.NormalizedLabelValues) != 0 {
 		c.Fail(c.NextID(), fmt.Sprintf("v1.NormalizedLabels / NormalizedLabelValues differ from the model's norm_table: %v %v", v1.NormalizedLabels, v1.NormalizedLabelValues), "", nil)
+	}
+}
+
+// countWorld: distribution of the input dimensions added by the coverage audit.
+func countWorld(c *kit.Ctx, w *sk.World, cfg sk.RunCfg) {
+	for _, np := range w.Pools {
+		if len(np.Spec.Limits) > 0 {
+			c.Count("B.extra.pool-with-limits")
+		}
+		if np.Spec.Replicas != nil || !np.StatusConditions().Root().IsTrue() {
+			c.Count("B.extra.pool-static-or-not-ready")
+		}
+		if len(np.Spec.Template.Spec.StartupTaints) > 0 {
+			c.Count("B.extra.pool-startup-taints")
+		}
+	}
+	for _, n := range w.Nodes {
+		if n.Kind == "registering" {
+			c.Count("B.extra.node-registered-uninitialized")
+		}
+	}
+	for _, it := range w.Catalog {
+		for k := range it.Capacity {
+			if strings.HasPrefix(string(k), "hugepages-") {
+				c.Count("B.extra.instance-type-with-hugepages")
+			}
+		}
+	}
+	for _, p := range w.Pods {
+		if p.Spec.Overhead != nil {
+			c.Count("B.extra.pod-overhead")
+		}
+		if !p.CreationTimestamp.IsZero() {
+			c.Count("B.extra.pod-creation-timestamp")
+		}
+		for _, t := range p.Spec.TopologySpreadConstraints {
+			if t.WhenUnsatisfiable == "DoNotSchedule" {
+				c.Count("B.extra.pod-hard-spread")
+			}
+		}
+		if a := p.Spec.Affinity; a != nil && a.PodAntiAffinity != nil && len(a.PodAntiAffinity.RequiredDuringSchedulingIgnoredDuringExecution) > 0 {
+			c.Count("B.extra.pod-required-anti-affinity")
+		}
+		for _, v := range p.Spec.Volumes {
+			switch {
+			case v.EmptyDir != nil:
+				c.Count("B.extra.volume-emptydir")
+			case v.Ephemeral != nil:
+				c.Count("B.extra.volume-ephemeral")
+			}
+		}
+	}
+	for _, name := range w.VolOrder {
+		switch vs := w.Vols[name]; {
+		case vs.Driver == sk.DriverEBS:
+			c.Count("B.extra.volume-in-tree-driver")
+		case vs.PV != nil && vs.PV.Spec.NodeAffinity == nil:
+			c.Count("B.extra.pv-without-node-affinity")
+		}
+	}
+	if cfg.NoReservedCapacity {
+		c.Count("B.extra.feature-gate-ReservedCapacity-off")
+	}
+	if cfg.MaxInstanceTypes > 0 {
+		c.Count("B.extra.MaxInstanceTypes-small")
 	}
 }
